@@ -87,6 +87,18 @@ def replay(recs):
             fac = [1, -1, 2, -3, 1, -2]
             run("Polygon.intersect(Line)/2D/mixed-sign-representatives", st, case, r,
                 lambda: g.Polygon(np.array([[f * c for c in list(v) + [1]] for v, f in zip(x["poly"], fac)])).intersect(g.Line(np.array(x["l"]) * -2)))
+            # the polygon and the line have been used by now: moved together by an exact isometry, the common points move along
+            if r["k"] == "set":
+                from ..moved import motions, mh, mp, warm
+                for mname, mv, T, Ti in motions(2):
+                    rm = {"k": "set", "pts": [mp(T, q) for q in r["pts"]]}
+
+                    def moved_call(mv=mv):
+                        poly = warm(g.Polygon(*[P(v) for v in x["poly"]]))
+                        line = warm(g.Line(np.array(x["l"])))
+                        poly.intersect(line)
+                        return mv(poly).intersect(mv(line))
+                    run(f"Polygon.intersect(Line)/2D/used-then-moved/{mname}", st, {**case, "moved by": mname}, rm, moved_call)
         elif t == "polyseg2":
             case = {"poly": x["poly"], "c": x["c"], "d": x["d"]}
             run("Polygon.intersect(Segment)/2D", st, case, r, lambda: g.Polygon(*[P(v) for v in x["poly"]]).intersect(g.Segment(P(x["c"]), P(x["d"]))))
@@ -97,6 +109,17 @@ def replay(recs):
             fac = [1, -1, 2, -3, 1, -2]
             run("Polygon.intersect(Line)/3D/mixed-sign-representatives", st, case, r,
                 lambda: g.Polygon(np.array([[f * c for c in list(v) + [1]] for v, f in zip(x["poly"], fac)])).intersect(g.Line(P(x["a"]), P(x["b"]))))
+            if r["k"] == "set" and sum(x["a"]) % 4 == 0:          # a quarter of the cases (the moved variants are costly)
+                from ..moved import motions, mp, warm
+                for mname, mv, T, Ti in motions(3):
+                    rm = {"k": "set", "pts": [mp(T, q) for q in r["pts"]]}
+
+                    def moved_call3(mv=mv):
+                        poly = warm(g.Polygon(*[P(v) for v in x["poly"]]))
+                        line = warm(g.Line(P(x["a"]), P(x["b"])))
+                        poly.intersect(line)
+                        return mv(poly).intersect(mv(line))
+                    run(f"Polygon.intersect(Line)/3D/used-then-moved/{mname}", st, {**case, "moved by": mname}, rm, moved_call3)
         elif t == "polyseg3":
             case = {"poly": x["poly"], "a": x["a"], "b": x["b"]}
             run("Polygon.intersect(Segment)/3D", st, case, r, lambda: g.Polygon(*[P(v) for v in x["poly"]]).intersect(g.Segment(P(x["a"]), P(x["b"]))))
@@ -108,6 +131,16 @@ def replay(recs):
             case = {"cuboid": c, "a": x["a"], "b": x["b"]}
             box = lambda: g.Cuboid(g.Point(0, 0, 0), g.Point(c[0], 0, 0), g.Point(0, c[1], 0), g.Point(0, 0, c[2]))  # noqa: E731
             run("Cuboid.intersect(Line)", st, case, r, lambda: box().intersect(g.Line(P(x["a"]), P(x["b"]))))
+            if r["k"] == "set" and sum(x["a"]) % 5 == 0:
+                from ..moved import motions, mp, warm
+                for mname, mv, T, Ti in motions(3)[:2]:
+                    rm = {"k": "set", "pts": [mp(T, q) for q in r["pts"]]}
+
+                    def moved_box(mv=mv):
+                        bx, line = warm(box()), warm(g.Line(P(x["a"]), P(x["b"])))
+                        bx.intersect(line)
+                        return mv(bx).intersect(mv(line))
+                    run(f"Cuboid.intersect(Line)/used-then-moved/{mname}", st, {**case, "moved by": mname}, rm, moved_box)
     return out
 
 
